@@ -1,6 +1,6 @@
 (* C04 — parsing recovers the structure of canonically written documents.  PARTIAL: word text is inert. *)
 From Coq Require Import ZArith List Bool Lia.
-From Verif Require Import PyStr Rx RxSpec RxAnalysis UnicodeGen RxGen Inline InlineProofs InlineInert Entry.
+From Verif Require Import PyStr Rx RxSpec RxAnalysis UnicodeGen RxGen Inline InlineProofs InlineInert Block BlockProofs BlockInert Entry.
 Import ListNotations.
 Open Scope Z_scope.
 
@@ -59,5 +59,29 @@ Proof.
     cbn. destruct (Z.eqb_spec ch 10); [contradiction|reflexivity].
 Qed.
 
+(* ---- in terms of the block parser model: lines of words are one paragraph ---- *)
+Lemma block_rules_quiet : forall C, block_cfg = Some C -> forall rk, In rk (b_rules C) -> bquiet C letters (b_spec C rk) = true.
+Proof.
+  intros C H. unfold block_cfg in H.
+  match type of H with context [opt_all ?l] => let v := eval vm_compute in (opt_all l) in change (opt_all l) with v in H end.
+  inversion H; subst C; clear H. cbn [b_rules b_spec b_uni].
+  intros rk Hin. cbn in Hin. repeat (destruct Hin as [<-|Hin]; [vm_compute; reflexivity|]). contradiction.
+Qed.
+
+(* for every non-empty list of lines without inner newlines that each begin with a lower-case letter (whatever else
+   they contain: digits, punctuation, markup characters in the middle of a line are not block syntax), the block
+   parser model returns exactly one paragraph holding the whole text, and no reference definition *)
+Theorem C04_lines_of_text_are_one_paragraph : forall C ls, block_cfg = Some C -> ls <> [] -> Forall (good_line letters) ls ->
+  block_parse C (flat ls) = Ok ([BParagraph (flat ls)], []).
+Proof.
+  intros C ls HC Hne Hg. apply (lines_of_words_are_one_paragraph C letters (block_rules_quiet C HC)).
+  - destruct ls as [|l ls]; [contradiction|]. cbn. destruct l; discriminate.
+  - apply flat_lines_begin. exact Hg.
+Qed.
+
+Example C04_good_line_example : good_line letters [102; 111; 111; 32; 42; 98; 97; 114; 42]%Z.
+Proof. split; [exists 102%Z, [111; 111; 32; 42; 98; 97; 114; 42]%Z; split; reflexivity|cbn; intuition discriminate]. Qed.
+
 Print Assumptions C04_letters_are_inert.
 Print Assumptions C04_words_parse_to_one_text_token.
+Print Assumptions C04_lines_of_text_are_one_paragraph.
